@@ -267,6 +267,29 @@ func replay(sc Scenario) (res Result) {
 			if e := storage.VerifTickAll(); e != nil {
 				return fail(i, "background flush failed: "+e.Error())
 			}
+		case "tick_createdb":
+			// a timer tick of the open store and a CREATE DATABASE at the same time: the new database is created (by its own
+			// bootstrap store, under its own lock) while the first page of the tick's flush is on its way to the file
+			q = "CREATE DATABASE " + ident(st.N)
+			var nerr error
+			var npanic bool
+			fired := storage.VerifDuringNextPageWrite(func() { nerr, npanic = w.exec(q) })
+			if e := storage.VerifTickAll(); e != nil {
+				return fail(i, "background flush failed: "+e.Error())
+			}
+			if !fired() {
+				nerr, npanic = w.exec(q) // nothing was unsaved: the tick wrote no page
+			}
+			if npanic {
+				return fail(i, fmt.Sprintf("`%s` (during a tick) panicked: %v", q, nerr))
+			}
+			got := "ok"
+			if nerr != nil {
+				got = "error"
+			}
+			if got != st.Exp.K {
+				return fail(i, fmt.Sprintf("`%s` (during a tick) returned %s (%v), promised %s", q, got, nerr, st.Exp.K))
+			}
 		case "restart", "crash":
 			if st.A == "restart" {
 				if e := w.sess.Close(); e != nil {
